@@ -585,7 +585,9 @@ impl HelpTemplate<'_, '_> {
                 // Only account for ', --' + 4 after the val
                 TAB_WIDTH + 4
             };
-            let spcs = longest + padding - self_len;
+            // A short-only flag is not part of `longest`; when it renders wider than `-x`
+            // (e.g. `-v...` for `ArgAction::Count`) it may exceed the column
+            let spcs = (longest + padding).saturating_sub(self_len).max(TAB_WIDTH);
             debug!(
                 "HelpTemplate::align_to_about: positional=false arg_len={self_len}, spaces={spcs}"
             );
